@@ -32,6 +32,7 @@ func TestVerifNetnsWildcards(t *testing.T) {
 	c := verifh.Case{ID: "netns-wildcards", Tags: []string{"stream:netns-wildcards"}, Input: map[string]any{"kind": "netns-wildcards"}}
 	res := make(chan string, 1)
 	var obs []string
+	peerFinding, peerChecked := "", false
 	go func() {
 		runtime.LockOSThread() // this thread moves into the new namespace and dies with the goroutine
 		if err := syscall.Unshare(syscall.CLONE_NEWNET); err != nil {
@@ -122,6 +123,21 @@ func TestVerifNetnsWildcards(t *testing.T) {
 				}
 			}
 		}
+		// an address configured with a peer (point-to-point style): the interface's address is the LOCAL one
+		if cur != "" {
+			_ = ip("-6", "addr", "del", cur+"/64", "dev", "lo")
+		}
+		if err := ip("-6", "addr", "add", "2001:db8:aa::1", "peer", "2001:db8:bb::2/64", "dev", "lo", "nodad"); err == nil {
+			got, err := build()
+			obs = append(obs, "peer: "+got)
+			if err != nil {
+				obs = append(obs, "peer error: "+err.Error())
+			} else if strings.Contains(got, "2001:db8:bb::2") {
+				peerFinding = fmt.Sprintf("lo has the address 2001:db8:aa::1 with peer 2001:db8:bb::2/64; the RA says [%s]: the PEER's address is advertised as the DNS server of this router", got)
+			} else {
+				peerChecked = true
+			}
+		}
 		res <- ""
 	}()
 	r := <-res
@@ -134,4 +150,9 @@ func TestVerifNetnsWildcards(t *testing.T) {
 		c.ImplViolation = r
 	}
 	out.Emit(c)
+	// reported apart, under its own class: a known finding (known_findings.txt), see DESIGN 10.3
+	if peerFinding != "" || peerChecked {
+		out.Emit(verifh.Case{ID: "netns-wildcards-peer", Tags: []string{"stream:netns-wildcards", "netns:peer-address"}, Input: map[string]any{"kind": "netns-wildcards-peer"},
+			Observed: "checked", ImplViolation: peerFinding, Class: "rdnss_peer_address"})
+	}
 }
